@@ -501,6 +501,53 @@ def _fresh(spec, model):
     return {'confirmed': bool(bad), 'observed': [(b['name'], b['detail']) for b in bad], 'expected': 'same identifier in a fresh process; deletable through the retrieved isotherm'}
 
 
+def odd_path_cases():
+    """database files whose names contain characters that mean something in a URI or a shell (#, ?, %41, blanks), next to a
+    neighbour whose name is a prefix of theirs: every operation -- writers and readers alike -- goes to the file that was named"""
+    import pygaps
+    import pygaps.parsing.sqlite as S
+    from pgv.checks import c09
+    pygaps.logger.disabled = True
+    tmp = tempfile.mkdtemp(prefix='pgv-c08o-')
+    reg0 = c09._registries()
+    try:
+        tpl = empty_template(tmp)
+        for label, names in (('hash', ('mofs.db', 'mofs.db#2')), ('hash_and_blank', ('batch', 'batch #3.db')), ('question_mark', ('q.db', 'q.db?mode=rw')), ('percent', ('A.db', '%41.db'))):
+            sub = os.path.join(tmp, label)
+            os.makedirs(sub)
+            pa, pb = os.path.join(sub, names[0]), os.path.join(sub, names[1])
+            shutil.copyfile(tpl, pa)
+            shutil.copyfile(tpl, pb)
+            probs = []
+            try:
+                c09._restore(reg0)
+                S.material_to_db(pygaps.Material('pgv_only_in_a', density=1.0), db_path=pa, verbose=False)
+                S.material_to_db(pygaps.Material('pgv_only_in_b', density=2.0), db_path=pb, verbose=False)
+                ga = sorted(m.name for m in S.materials_from_db(db_path=pa, verbose=False))
+                gb = sorted(m.name for m in S.materials_from_db(db_path=pb, verbose=False))
+                if ga != ['pgv_only_in_a'] or gb != ['pgv_only_in_b']:
+                    probs.append(f"materials read from {names[0]!r}: {ga}, from {names[1]!r}: {gb}")
+                iso = pygaps.PointIsotherm(pressure=[1, 2, 3], loading=[1, 2, 3], material='pgv_only_in_b', adsorbate='nitrogen', temperature=77.355)
+                S.isotherm_to_db(iso, db_path=pb, verbose=False)
+                back = S.isotherms_from_db(db_path=pb, verbose=False)
+                if [b.iso_id for b in back] != [iso.iso_id]:
+                    probs.append(f"isotherm uploaded to {names[1]!r} not retrieved from it")
+                if sorted(os.listdir(sub)) != sorted(names):
+                    probs.append(f"files in the folder afterwards: {sorted(os.listdir(sub))}")
+            except Exception as exc:
+                probs.append(f"{type(exc).__name__}: {exc}"[:140])
+            yield {'name': f"file_names_with_special_characters|{label}", 'ok': not probs, 'detail': '; '.join(probs[:2]), 'ops': None}
+    finally:
+        c09._restore(reg0)
+        shutil.rmtree(tmp, ignore_errors=True)
+
+
+@replayer('c08.odd_path')
+def _odd_path(spec, model):
+    bad = [r for r in odd_path_cases() if not r['ok']]
+    return {'confirmed': bool(bad), 'observed': [(b['name'], b['detail']) for b in bad], 'expected': 'every operation acts on the file that was named'}
+
+
 @replayer('c08.positional')
 def _positional(spec, model):
     r = positional_path_case()
@@ -526,6 +573,7 @@ def history_cases(seed, thorough=False):
     yield positional_path_case()
     yield from fresh_process_cases()
     yield from refused_midway_cases()
+    yield from odd_path_cases()
     hs, two = histories(seed, thorough)
     items = [(1, h) for h in hs] + [(2, h) for h in two]
     res, crashes = par.pmap(run_chunk, par.chunks(items, 32))
